@@ -241,8 +241,21 @@ func (s *scanner) protoStream() [][]byte {
 
 func (s *scanner) protos(n int) {
 	name := "protocol.readLoop"
-	for i := 0; i < n; i++ {
-		segs := s.protoStream()
+	failed := 0
+	// fixed streams first (seed-independent): the empty message, null, a non-list, a message split inside its
+	// header / inside a string, two messages in one segment, a break byte, a first element that is not a number
+	fixed := [][][]byte{
+		{{0x80}}, {{0x82, 0x01, 0x02}, {0x80}}, {{0xf6}}, {{0x05}}, {{0x82, 0x00}, {0x41}, {0x07, 0x81, 0x03}},
+		{{0x98}, {0x02, 0x04, 0x05}}, {{0x81, 0x01, 0x82, 0x02, 0x40}}, {{0xff}}, {{0x81, 0x61, 0x78}}, {{0x9f, 0x09}, {0xff, 0x81}, {0x0a}},
+		{{0x81, 0xf6}, {0x81, 0xe5}}, {{0xc6, 0x82, 0x0b, 0x0c}}, {{0x81, 0x18}}, {{0xa1, 0x00, 0x00}},
+	}
+	for i := 0; i < n+len(fixed); i++ {
+		var segs [][]byte
+		if i < len(fixed) {
+			segs = fixed[i]
+		} else {
+			segs = s.protoStream()
+		}
 		var whole []byte
 		for _, x := range segs {
 			whole = append(whole, x...)
@@ -258,7 +271,13 @@ func (s *scanner) protos(n int) {
 		s.c.Begin(sreplay{name, vh.Hex(whole), fmt.Sprint(len(segs)), "crash"})
 		calls, errored, ok := runProto(segs)
 		if !ok {
+			// the harness could not synchronise with the protocol's goroutines (overloaded machine):
+			// no verdict for this stream; after three of them the scanner stops instead of eating the time budget
 			s.c.Res.Count("", false, "scan:proto-sync-failed")
+			if failed++; failed >= 3 {
+				s.c.Res.Notes = append(s.c.Res.Notes, "protocol.readLoop correspondence stopped early: three streams could not be synchronised (machine overloaded)")
+				return
+			}
 			continue
 		}
 		all := [][]byte{{0x81, 0x00}}
